@@ -312,11 +312,16 @@ structure Compiled where
   prog : List Instr
   labels : List (Label × Nat)
 
+/-- `define_label` refuses to define a label twice ("Label … defined twice!") -/
+def labelsDistinct (defs : List (Label × Nat)) : Bool := decide (defs.map (·.1)).Nodup
+
 def compileProgram (sd : Defs) (funs : List FunDef) : Option Compiled :=
   let U := compileUnresolved sd funs
-  match resolveTargets U.defs U.code with
-  | Option.some prog => Option.some ⟨prog, U.defs⟩
-  | Option.none => Option.none
+  if labelsDistinct U.defs then
+    match resolveTargets U.defs U.code with
+    | Option.some prog => Option.some ⟨prog, U.defs⟩
+    | Option.none => Option.none
+  else Option.none
 
 def Compiled.entry (cp : Compiled) (f : Nat) : Option Nat := lookupLabel cp.labels (.fn f)
 
